@@ -27,9 +27,15 @@ import (
 
 const (
 	repo     = "/repo"
-	verif    = "/verif"
 	shimPath = "github.com/bytedance/sonic/loader/vshim"
 )
+
+var verif = func() string {
+	if r := os.Getenv("VERIF_ROOT"); r != "" {
+		return r
+	}
+	return "/verif"
+}()
 
 var (
 	reSync   = regexp.MustCompile("(?m)^(\\s*)(?:import\\s+)?[\"`]sync[\"`]\\s*$")
